@@ -4,6 +4,8 @@
 package main
 
 import (
+	"github.com/WICG/webpackage/go/zz_verif/rcbor"
+	"crypto/sha256"
 	"bytes"
 	"crypto/ecdsa"
 	"crypto/x509"
@@ -258,6 +260,19 @@ func verifyAll(r *mon.Run, sc *scenario, b *bundle.Bundle, t time.Time, class, m
 				// (encoding-agnostic: a signature is judged by the (r, s) it carries; how strictly its DER is parsed is not what
 				// the property is about - no encoding leniency can authenticate altered content)
 				ok = rsxg.VerifyLenient(pub, msg, vs.Sig)
+			}
+		}
+		if ok {
+			// ... and the certificate the subset names (auth-sha256, part of what was signed) must be the one at its index
+			if items, derr := rcbor.DecodeAll(vs.Signed, rcbor.Opts{}); derr == nil && len(items) == 1 {
+				if a := items[0].MapGet("auth-sha256"); a != nil {
+					sum := sha256.Sum256(b.Signatures.Authorities[vs.Authority].Cert.Raw)
+					if !bytes.Equal(a.Str, sum[:]) {
+						r.Eval(class + ":AUTHORITY-CONFUSION")
+						r.Violation(key+":auth-sha256", fmt.Sprintf("NewVerifier accepted vouched subset %d whose signed auth-sha256 is not the hash of the certificate at its authority index %d (the key that verifies it) (%s)", k, vs.Authority, id), det)
+						return
+					}
+				}
 			}
 		}
 		if !ok {
@@ -578,6 +593,28 @@ func run(r *mon.Run) {
 			f(s)
 			cp.Signatures = s
 			verifyAll(r, sc, &cp, mid, "signatures-mutation", mut, false, 101)
+		}
+		// authority confusion: another key holder (own certificate, same host names) takes the victim's signed subset,
+		// keeps auth-sha256 = hash(victim's certificate), signs it with its OWN key, appends its own certificate and points
+		// the authority index at it. The signature is valid under the certificate at the index; that certificate is not
+		// the one the subset names.
+		if i%3 == 0 {
+			vk := 0
+			victim := sc.signers[0]
+			ag := r.Rand("attacker", i)
+			att := gen.NewIdentity(ag, gen.Curves[i%2], victim.hosts[0], 1)
+			leaf := gen.Cert(att.Key, gen.CertOpts{CN: victim.hosts[0], DNS: victim.hosts, Serial: 666})
+			att.Chain[0].Cert = leaf
+			mutSig("authority-confusion(attacker-signed, victim named)", func(s *bundle.Signatures) {
+				msg := append(append([]byte(strings.Repeat(" ", 64)+"Web Package 1 "+string(sc.ver)), 0), s.VouchedSubsets[vk].Signed...)
+				sg, serr := rsxg.Sign(ag, att.Key, msg)
+				if serr != nil {
+					return
+				}
+				s.Authorities = append(s.Authorities, att.Chain[0])
+				s.VouchedSubsets[vk].Sig = sg
+				s.VouchedSubsets[vk].Authority = uint64(len(s.Authorities) - 1)
+			})
 		}
 		for k := range rb.Signatures.VouchedSubsets {
 			k := k
